@@ -1,6 +1,7 @@
 import Driver.Cpu
 import Driver.Mem
-/-  `wincount` verb: property C03 on the banked machines, with bank switching. -/
+/-  `wincount` verb: property C03 on the banked machines, with bank switching.
+    `crash` verb: property C11 on the real machines (host survival; judged stops of programs the specification can run). -/
 namespace Driver
 open Verif Verif.Impl Verif.Spec Verif.Facts
 
@@ -55,6 +56,121 @@ def handleWinCount (line : String) : String :=
             let firstDiff := (gl.filter (fun t => !wl.contains t) ++ wl.filter (fun t => !gl.contains t)).head?.getD "?"
             s!"DIFF trace:machine-counts | VIOL C03:machine-counts-banked:{spec}:model={m}:{g}:first={firstDiff} | wincount"
     | _, _ => "bad"
+  | _ => "bad"
+
+/-- the documented machine as a bus: every access is resolved by the specification's map (`docMap`) under the banking
+    state of that moment; an address the map does not resolve is a memory fault -/
+structure DocMach where
+  k : MemKind
+  st : MemState
+  budget : Nat
+
+def docBus : Bus DocMach where
+  load s a :=
+    if s.budget = 0 then (.error .budget, s) else
+    match docMap s.k (fun c => (s.st.data c).toNat) a.toNat with
+    | none => (.error .mem, s)
+    | some c => (.ok (s.st.data c), { s with budget := s.budget - 1 })
+  store s a v r :=
+    if s.budget = 0 then (.error .budget, s) else
+    match docMap s.k (fun c => (s.st.data c).toNat) a.toNat with
+    | none => (.error .mem, s)
+    | some c => (.ok r, { s with st := { s.st with data := upd s.st.data c v }, budget := s.budget - 1 })
+
+/-- the specification's own run of a program on the documented machine, up to the instruction that stops it:
+    `halt` (BRK; registers after it), `illegal` (undecodable opcode; registers and memory BEFORE it, PC at the opcode),
+    `fault` (an access the map does not resolve), `open` (the data sheets leave the instruction's outcome open, e.g.
+    invalid BCD) or `budget`.  Also returns the union of the P bits the specification left unconstrained on the way. -/
+def specRunStop (model : CpuModel) : Nat → Regs → DocMach → Byte → String × Regs × DocMach × Byte
+  | 0, r, m, pm => ("budget", r, m, pm)
+  | fuel + 1, r, m, pm =>
+    match (Spec.step model r).run docBus r m with
+    | (.ok (some (out, r')), m') =>
+      if out.halt then ("halt", r', m', pm) else specRunStop model fuel r' m' (pm ||| out.pmask)
+    | (.ok none, m') => ("open", r, m', pm)
+    | (.error (.illegal _ _), _) => ("illegal", r, m, pm)
+    | (.error .mem, m') => ("fault", r, m', pm)
+    | (.error .budget, m') => ("budget", r, m', pm)
+    | (.error _, m') => ("open", r, m', pm)
+
+/-- CPU view of the documented machine without side effects (`!!` = fault), as the harness prints a final memory byte -/
+def docPeek (m : DocMach) (a : Nat) : String :=
+  match docMap m.k (fun c => (m.st.data c).toNat) (a % 65536) with
+  | some c => hexB (m.st.data c)
+  | none => "!!"
+
+/-- a judged stop: `crash SPEC (spec|lar)-CPU:ADDR CODE => kind@pc:sp:a:x:y:p:prev:mem`.  The program (placed by stores
+    through the CPU view at ADDR, by the harness or by the loader) is run by the specification on the documented machine.
+    Property C11: a run that stops halts at a BRK or returns an error; an unimplemented opcode ends the run with an
+    error, registers and memory as before it, PC pointing at it (however often the address was executed before and
+    whatever was mapped there then); a memory fault ends it with an error. -/
+def judgeStop (spec mode cpu : String) (org : Nat) (code : List Nat) (r : String) : String :=
+  let (kindG, stateG) := splitOnce r "@"
+  let cls := s!"crash.{mode}.{kindG}"
+  if kindG == "died" || kindG == "hostcrash" then s!"agree | VIOL C11:hostcrash:{kindG}:{spec}:{mode}-{cpu} | {cls}" else
+  if kindG == "running" then s!"agree | VIOL C11:stop:kind=running:{mode}-{cpu}:{spec} | {cls}" else
+  if kindG != "halt" && kindG != "error" then "bad" else
+  let parsed : Option (CpuModel × MemKind) := do
+    let model ← if cpu == "6502" then some CpuModel.m6502 else if cpu == "65C02" then some CpuModel.m65C02 else none
+    some (model, ← docMachine spec)
+  match parsed, stateG.splitOn ":" with
+  | some (model, k), [pc, sp, a, x, y, p, prev, memG] =>
+    match parseRegs [pc, sp, a, x, y, p] with
+    | none => "bad"
+    | some rg =>
+      -- the machine before the run: the program placed by stores through the CPU view
+      let s0 : MemState := code.zipIdx.foldl (fun (st : MemState) (bi : Nat × Nat) =>
+        match docMap k (fun c => (st.data c).toNat) ((org + bi.2) % 65536) with
+        | some c => { st with data := upd st.data c (BitVec.ofNat 8 bi.1) }
+        | none => st) (initState k)
+      let (kindS, rs, ms, pm) := specRunStop model 400 ⟨BitVec.ofNat 16 org, 0xFF, 0, 0, 0, 0⟩ ⟨k, s0, 4000⟩ 0
+      let memS := String.join ((List.range code.length).map fun i => docPeek ms (org + i)) ++
+        String.join ([0x1FC, 0x1FD, 0x1FE, 0x1FF].map (docPeek ms))
+      let sfx := s!":{mode}-{cpu}:{spec}"
+      -- halting means: at a BRK (the byte in front of the final PC in the machine's own final memory)
+      let vBrk := if kindG == "halt" && prev != "00" then [s!"C11:stop:halt-not-at-brk{sfx}"] else []
+      let v : List String :=
+        if kindS == "illegal" then
+          (if kindG != "error" then [s!"C11:stop:kind={kindG}:want=error-at-unimplemented-opcode{sfx}"] else []) ++
+          ((regsDiff pm rg rs).map fun d => s!"C11:stop:regs-at-unimplemented-opcode:{(d.splitOn ":").headD ""}{sfx}") ++
+          (if memG != memS then [s!"C11:stop:memory-at-unimplemented-opcode{sfx}"] else [])
+        else if kindS == "fault" then
+          (if kindG != "error" then [s!"C11:stop:kind={kindG}:want=error-at-memory-fault{sfx}"] else [])
+        else if kindS == "halt" then
+          -- a program the data sheets run to its BRK: an error instead is an instruction that did not do what it
+          -- should (C01), not a matter of C11
+          (if kindG != "halt" then [s!"C01:stop:kind={kindG}:want=halt{sfx}"] else [])
+        else []
+      let v := v ++ (if v.isEmpty then vBrk else [])
+      if v.isEmpty then s!"agree | specok | {cls}.{kindS}" else s!"agree | VIOL {",".intercalate v} | {cls}.{kindS}"
+  | _, _ => "bad"
+
+/-- `crash SPEC MODEL CODE => halt|error|running|hostcrash|died`: a generated program on a real memory model, run in a
+    child process of the harness; the simulated program may halt, end with an error or keep running — the host
+    process must survive.  Mode words `spec-<cpu>:<addr>` / `lar-<cpu>:<addr>` are judged stops (`judgeStop`). -/
+def handleCrash (line : String) : String :=
+  match line.splitOn " => " with
+  | [req, res] =>
+    match words req with
+    | [_, spec, model, code] =>
+      let r := res.trimAscii.toString
+      let judged : Option (String × String × Nat) :=
+        match model.splitOn ":" with
+        | [mc, orgS] =>
+          match mc.splitOn "-", parseAddr orgS with
+          | [md, cpu], some a => if md == "spec" || md == "lar" then some (md, cpu, a.toNat) else none
+          | _, _ => none
+        | _ => none
+      match judged with
+      | some (md, cpu, org) =>
+        match unhex code with
+        | some bytes => judgeStop spec md cpu org bytes r
+        | none => "bad"
+      | none =>
+        if r == "died" || r == "hostcrash" then s!"agree | VIOL C11:hostcrash:{r}:{spec}:{model}:{code} | crash.{r}"
+        else if r == "halt" || r == "error" || r == "running" then s!"agree | specok | crash.{r}"
+        else "bad"
+    | _ => "bad"
   | _ => "bad"
 
 end Driver
